@@ -93,11 +93,13 @@ let () =
                 | Enum.ROk en -> (try int_of_string (show_z (Enum.possible_keys fb en)) with _ -> max_int)
                 | Enum.RErr _ -> 0) in
       let n = if pk > mx then pk else Stdlib.List.length (FragSem.keys_of fb) in
-      (* Sem.all_valid walks all level sequences of the plain factors: bound that space as well
+      (* Sem.all_valid walks all level sequences of the plain factors (derived rows are computed): bound that space as well
          (with weights it is much larger than the number of keys) *)
       let t = float_of_int (int_of_nat fb.Flat.fl_trials) in
       let space = Stdlib.List.fold_left (fun acc fd ->
-          acc *. (float_of_int (Stdlib.List.length fd.Flat.ff_levels) ** t)) 1.0 fb.Flat.fl_design in
+          match fd.Flat.ff_window with
+          | None -> acc *. (float_of_int (Stdlib.List.length fd.Flat.ff_levels) ** t)
+          | Some _ -> acc) 1.0 fb.Flat.fl_design in
       (* Sem.all_valid fills derived rows in list order: it is complete only if every derived factor is
          listed after the factors it reads (the desugared weighted free factors are not) *)
       let listed_ok =
